@@ -100,4 +100,14 @@ def compactDBGuard (dstInfo srcInfo : FileInfo) (prevCompactionAt : Nat) : Guard
   else if srcInfo.max ≤ dstInfo.min then .noCompaction
   else .go
 
+def lastInfo : FileInfo → List FileInfo → FileInfo
+  | f, [] => f
+  | _, g :: t => lastInfo g t
+
+/-- The TXID range in the header of the file `ltx.Compactor` writes for these
+    sources (ltx compactor.go: `MinTXID` of the first input, `MaxTXID` of the last). -/
+def srcHeader : List FileInfo → Nat × Nat
+  | [] => (0, 0)
+  | f :: rest => (f.min, (lastInfo f rest).max)
+
 end Litestream
